@@ -22,6 +22,7 @@ def base_models(tmpdir):
     emp["teams"] = emp["teams"] + [{"name": "TMX", "targets": [], "workers": []}]
     emp["workplaces"] = [{"name": "WPX", "cap": 1.0, "targets": [], "facilities": []}]
     out.append((emp, "empty-team-and-workplace"))
+    out += [(sp, sp["label"]) for sp in F.scale_specs() if sp["label"] in ("scale:8components",)]
     # a parent project with a sub-project task (configured from a saved, successfully simulated project)
     sub = F.with_teams({"tasks": [{"name": "T0", "work": 2.0}, {"name": "T1", "work": 1.0}], "links": [[0, 1, "FS"]]}, "POOL1")
     m = S.build(sub)
